@@ -42,15 +42,31 @@ class GrammarFacts:
             nm = r.origin.name
             if nm.startswith("_"):
                 continue
-            self.producers.setdefault(r.alias or nm, []).append(r)
+            self.producers.setdefault(str(r.alias or nm), []).append(r)
         self._W: dict[str, set] = {}      # inlined-rule name -> child sequences
         self._over: dict[str, bool] = {}
         self._words: dict[str, tuple[set, bool]] = {}
+        self._tree_names = None
 
     # ------------------------------------------------------------------------
     @property
     def tree_names(self) -> set[str]:
-        return set(self.producers)
+        """Names a Tree.data can actually take (``?rule``s that always inline are excluded)."""
+        if self._tree_names is None:
+            out = set()
+            for nm, rs in self.producers.items():
+                if nm == "start":
+                    out.add(nm)
+                    continue
+                if all(bool(r.options and r.options.expand1) and not r.alias for r in rs):
+                    try:
+                        if not self.rule_words(nm) and not self.unbounded(nm):
+                            continue
+                    except AnchorMissing:
+                        pass
+                out.add(nm)
+            self._tree_names = out
+        return self._tree_names
 
     def _inline_closure(self, nm: str):
         """Fixpoint for a ``_`` rule (possibly recursive)."""
@@ -93,7 +109,7 @@ class GrammarFacts:
         if sym.is_term:
             if getattr(sym, "filter_out", False):
                 return {()}, False
-            return {(("K", sym.name),)}, False
+            return {(("K", str(sym.name)),)}, False
         nm = sym.name
         if nm not in self.by_origin:
             raise AnchorMissing(f"grammar {self.name}: rule {nm} used but not defined")
@@ -108,11 +124,11 @@ class GrammarFacts:
             if expand1 and not r.alias:
                 ws, ov = self._alt_words(r)
                 for w in ws:
-                    out.add(w if len(w) == 1 else (("T", tname),))
+                    out.add(w if len(w) == 1 else (("T", str(tname)),))
                 if ov:
-                    out.add((("T", tname),))
+                    out.add((("T", str(tname)),))
             else:
-                out.add((("T", tname),))
+                out.add((("T", str(tname)),))
         return out, False
 
     def _alt_words(self, r):
